@@ -20,6 +20,7 @@ package static
 import (
 	"bytes"
 	"encoding/json"
+	"errors"
 	"fmt"
 	"io"
 	"io/ioutil"
@@ -32,6 +33,7 @@ import (
 	"path/filepath"
 	"strconv"
 	"strings"
+	"syscall"
 
 	"github.com/google/martian/v3"
 	"github.com/google/martian/v3/parse"
@@ -88,7 +90,8 @@ func (s *Modifier) ModifyResponse(res *http.Response) error {
 
 	f, err := os.Open(fpth)
 	switch {
-	case os.IsNotExist(err):
+	case os.IsNotExist(err), errors.Is(err, syscall.ENOTDIR):
+		// ENOTDIR: a parent of the requested path is a regular file.
 		res.StatusCode = http.StatusNotFound
 		return nil
 	case os.IsPermission(err):
@@ -108,6 +111,13 @@ func (s *Modifier) ModifyResponse(res *http.Response) error {
 	if err != nil {
 		res.StatusCode = http.StatusInternalServerError
 		return err
+	}
+
+	// Directories have no content to serve.
+	if info.IsDir() {
+		f.Close()
+		res.StatusCode = http.StatusNotFound
+		return nil
 	}
 
 	contentType := mime.TypeByExtension(filepath.Ext(fpth))
